@@ -59,7 +59,7 @@ class Facts:
         # names of module-level ContextVars: `NAME.get()` is task-local, so only an explicit write to NAME in this
         # task invalidates it (awaits and opaque callbacks do not: user handlers do not touch private bus state)
         self.taskvars = set(taskvars)
-        self.tracked = tracked
+        self.tracked = lambda a, _t=tracked: _t(a) or a.startswith('__inl_')  # synthetic flags introduced by helper folding are always tracked
         self.sticky_true = set(sticky_true)  # atoms that, once truthy, stay truthy (monotone signals)
         self.rhs_value = rhs_value
         self.cg = cg  # CallGraph: effect-based invalidation of attribute atoms (None -> any call invalidates)
